@@ -58,7 +58,7 @@ for src in $LIBSRC; do
 done
 for p in $pids; do wait $p || { echo "compile failed" >&2; exit 3; }; done
 $CC $SAN -shared -Wl,-soname,liberasurecode.so.1 -o "$OUT/liberasurecode.so.1" "$OUT"/obj_*.o \
-   -L"$OUT" -lXorcode -lnullcode -l:liberasurecode_rs_vand.so.1 -lpthread -lm -lz -ldl -Wl,-rpath,"$OUT"
+   -L"$OUT" -Wl,--no-as-needed -lXorcode -lnullcode -l:liberasurecode_rs_vand.so.1 -Wl,--as-needed -lpthread -lm -lz -ldl -Wl,-rpath,"$OUT"
 ln -sf liberasurecode.so.1 "$OUT/liberasurecode.so"
 rm -f "$OUT"/obj_*.o
 echo "built $MODE/$FLAVOUR into $OUT"
